@@ -11,8 +11,15 @@ def main():
     args = [a for a in sys.argv[1:] if not a.startswith('-')]
     quals = args or reg.quals()
     t0 = time.time()
-    with mp.get_context('fork').Pool(min(16, len(quals))) as pool:
-        res = pool.map(_worker, [(q, 10000, False) for q in quals], chunksize=1)
+    with mp.get_context('fork').Pool(16) as pool:
+        jobs = []
+        for q in quals:
+            c = reg.get(q)
+            if c is not None and c.ncases:
+                jobs.extend((q, 10000, False, i) for i in range(c.ncases))
+            else:
+                jobs.append((q, 10000, False))
+        res = pool.map(_worker, jobs, chunksize=1)
     for r in res:
         print('== %s: %s paths=%d obligations=%d proved=%d refuted=%d unknown=%d wall=%.2fs feas=%d(%.2fs)' % (
             r.qual, r.status, r.paths, len(r.obligations), len(r.proved), len(r.refuted), len(r.unknown), r.wall,
